@@ -1,4 +1,4 @@
-"""C13: integer + - * negation ++/-- are lane-wise two's-complement."""
+"""C13: fpclassify/isnan/isinf/isfinite/isnormal/signbit and the quiet comparison functions."""
 import common
 import runner
 
@@ -23,8 +23,7 @@ def run(tier, a=None):
     cfgs = select_cfgs(tier, a)
     runner.run_families(res, cfgs, ["fpclass"], type_filter(a))
     res.trusted = ["clang 14 front end and -O2 pipeline preserve the meaning of UB-free executions",
-                   "LLVM LangRef: add/sub/mul without nsw/nuw are arithmetic modulo 2^n per lane"]
-    return common.finish(res, explanation="every integer vector type x configuration x "
-                         "{+,-,*,unary -,++,--, compound forms}: optimised IR summarised into a "
-                         "closed form and compared with add/sub/mul modulo 2^bits on the same lane",
+                   "LLVM LangRef semantics of the IR instructions; Intel SDM semantics of the x86 intrinsics as modelled in spec/isa.py",
+                   "the term normaliser, the exact IEEE evaluator (lib/fpeval.py) and the abstract interpreter (lib/absint.py, self-tested against the concrete evaluator)"]
+    return common.finish(res, explanation="every floating-point vector type x configuration x {fpclassify, isnan, isinf, isfinite, isnormal, signbit, isgreater, isgreaterequal, isless, islessequal, islessgreater, isunordered}: the classification predicates are decided on a finite partition of the lane's bit pattern induced by their comparison atoms (field-aligned partition, or the general segment partition) against the C library classification; the comparison functions must be the quiet fcmp predicate of the same lanes",
                          write_floor=getattr(a, "write_floor", False))
